@@ -25,7 +25,7 @@ structure Expr where
   op  : Op
   lit : V
   set : List V
-deriving Repr, Inhabited
+deriving DecidableEq, Repr, Inhabited
 
 abbrev Row := Nat → V
 
@@ -248,14 +248,26 @@ def batchesApi (n : Nat) (es : List Expr) (files : List File) : List (List Row) 
 /-- `iter_records`: flatten of `scan_batches(batch_size=1000)`. -/
 def recordsApi (es : List Expr) (files : List File) : List Row := (batchesApi 999 es files).flatten
 
+/-- checksum-off path of `_read_datafile_table` (after fix c29e5f1): read the whole file, filter, project —
+the same pipeline as the verified path. -/
+def nochecksumApi (es : List Expr) (files : List File) : List Row :=
+  (files.map fun f => f.filter (keepsAll es)).flatten
+
+/-! #### The rejected design: predicate pushdown into the parquet reader (`pq.read_table(filters=…)`)
+
+Kept as a model of what the code did before c29e5f1, so that the reason it must not come back is a theorem
+(`pushdown_agrees_refuted`) rather than a comment. -/
+
 /-- Row-group statistics as parquet stores them: min/max over non-NULL, non-NaN values. -/
-def rgStats (c : Nat) (f : File) : Bounds :=
-  match listMin (vals (f.map (· c))), listMax (vals (f.map (· c))) with
+def rgStatsV (xs : List V) : Bounds :=
+  match listMin (vals xs), listMax (vals xs) with
   | some lo, some hi => .range lo hi
   | _, _ => .none
 
-/-- What the parquet reader's predicate pushdown concludes from `[lo, hi]` alone (NaN-blind):
-`true` = the row group cannot match and is skipped.  Measured against pyarrow by the correspondence. -/
+def rgStats (c : Nat) (f : File) : Bounds := rgStatsV (f.map (· c))
+
+/-- What statistics-based row-group skipping concludes from `[lo, hi]` alone (NaN-blind):
+`true` = the row group cannot match and is skipped. -/
 def pushSkip1 (b : Bounds) (e : Expr) : Bool :=
   match b with
   | .range lo hi =>
@@ -270,8 +282,6 @@ def pushSkip1 (b : Bounds) (e : Expr) : Bool :=
       | _ => false
   | _ => false
 
-/-- checksum-off path: `pq.read_table(src, filters=expr)` = skip the row group if statistics refute any
-conjunct, otherwise filter its rows. (One row group per file: files are written in one piece.) -/
 def pushdownApi (es : List Expr) (files : List File) : List Row :=
   (files.map fun f =>
     if es.any (fun e => pushSkip1 (rgStats e.col f) e) then [] else f.filter (keepsAll es)).flatten
